@@ -34,37 +34,44 @@ theorem store_clear (st : Store) (key : SKey) (h : st.any (·.1 == key) = false)
   exact ⟨lookup_eq_none_of_not_mem_keys _ _ hne,
     lookup_eq_none_of_not_mem_keys _ _ (fun p hp => hne p (List.mem_reverse.mp hp))⟩
 
+theorem visibleStore_get_none (x : Engine) (key : SKey) (h : x.store.lookup key = none) :
+    x.visibleStore.get key = none := by
+  unfold Engine.visibleStore Store.get
+  split
+  · rfl
+  · split
+    · exact h
+    · rfl
+
 theorem nodeProp_cons (x x' : Engine) (r : Run) (hr : x'.runs = r :: x.runs) (hst : x'.store = x.store)
-    (hroot : x'.propsRoot = x.propsRoot)
+    (hroot : x'.propsRoot = x.propsRoot) (hsr : x'.storeRoot = x.storeRoot)
     (hdel : x.propsRoot = 0 ∨ ∀ key ∈ r.nDel, storeHasN x key = false) (n k : Nat) :
     x'.nodeProp n k = pushNProp r n k (x.nodeProp n k) := by
   unfold Engine.nodeProp pushNProp
-  rw [hr, hst, hroot]
+  rw [hr, visibleStore_congr hst hroot hsr]
   simp only [npropRuns]
   by_cases hd : r.nDel.contains (n, k) = true
   · simp only [hd, if_true]
     rcases hdel with h0 | hc
-    · simp [h0]
+    · rw [visibleStore_noRoot h0]; rfl
     · have hm : (n, k) ∈ r.nDel := by simpa using hd
-      have := (store_clear x.store (.node n k) (hc (n, k) hm)).1
-      simp [Store.get, this]
+      exact visibleStore_get_none x _ (store_clear x.store (.node n k) (hc (n, k) hm)).1
   · simp only [hd, Bool.false_eq_true, if_false]
     cases r.nprops.lookup (n, k) <;> rfl
 
 theorem edgeProp_cons (x x' : Engine) (r : Run) (hr : x'.runs = r :: x.runs) (hst : x'.store = x.store)
-    (hroot : x'.propsRoot = x.propsRoot)
+    (hroot : x'.propsRoot = x.propsRoot) (hsr : x'.storeRoot = x.storeRoot)
     (hdel : x.propsRoot = 0 ∨ ∀ key ∈ r.eDel, storeHasE x key = false) (e : Edge) (k : Nat) :
     x'.edgeProp e k = pushEProp r e k (x.edgeProp e k) := by
   unfold Engine.edgeProp pushEProp
-  rw [hr, hst, hroot]
+  rw [hr, visibleStore_congr hst hroot hsr]
   simp only [epropRuns]
   by_cases hd : r.eDel.contains (e, k) = true
   · simp only [hd, if_true]
     rcases hdel with h0 | hc
-    · simp [h0]
+    · rw [visibleStore_noRoot h0]; rfl
     · have hm : (e, k) ∈ r.eDel := by simpa using hd
-      have := (store_clear x.store (.edge e k) (hc (e, k) hm)).1
-      simp [Store.get, this]
+      exact visibleStore_get_none x _ (store_clear x.store (.edge e k) (hc (e, k) hm)).1
   · simp only [hd, Bool.false_eq_true, if_false]
     cases r.eprops.lookup (e, k) <;> rfl
 
@@ -96,10 +103,12 @@ structure RFrame (s s' : Engine) : Prop where
   segs : s'.segs = s.segs
   store : s'.store = s.store
   root : s'.propsRoot = s.propsRoot
+  storeRoot : s'.storeRoot = s.storeRoot
 
-theorem RFrame.refl (s : Engine) : RFrame s s := ⟨rfl, rfl, rfl, rfl⟩
+theorem RFrame.refl (s : Engine) : RFrame s s := ⟨rfl, rfl, rfl, rfl, rfl⟩
 theorem RFrame.trans {a b c : Engine} (h1 : RFrame a b) (h2 : RFrame b c) : RFrame a c :=
-  ⟨h2.runs.trans h1.runs, h2.segs.trans h1.segs, h2.store.trans h1.store, h2.root.trans h1.root⟩
+  ⟨h2.runs.trans h1.runs, h2.segs.trans h1.segs, h2.store.trans h1.store, h2.root.trans h1.root,
+   h2.storeRoot.trans h1.storeRoot⟩
 
 theorem Eqv.congr {c : Cfg} {s u s1 u1 : Engine} (h : Eqv c s u) (fs : RFrame s s1) (fu : RFrame u u1)
     (hm : IdEq s1.idmap u1.idmap) (hi : s1.interner = u1.interner) (hv : s1.vecs = u1.vecs) : Eqv c s1 u1 := by
@@ -107,8 +116,12 @@ theorem Eqv.congr {c : Cfg} {s u s1 u1 : Engine} (h : Eqv c s u) (fs : RFrame s 
   · intro n; rw [fs.runs, fu.runs]; exact h.tomb n
   · intro n rel; unfold Engine.neighbors; rw [fs.runs, fs.segs, fu.runs, fu.segs]; exact h.out n rel
   · intro n rel; unfold Engine.incoming; rw [fs.runs, fs.segs, fu.runs, fu.segs]; exact h.inc n rel
-  · intro n k; unfold Engine.nodeProp; rw [fs.runs, fs.store, fs.root, fu.runs, fu.store, fu.root]; exact h.nprop n k
-  · intro e k; unfold Engine.edgeProp; rw [fs.runs, fs.store, fs.root, fu.runs, fu.store, fu.root]; exact h.eprop e k
+  · intro n k; unfold Engine.nodeProp
+    rw [fs.runs, fu.runs, visibleStore_congr fs.store fs.root fs.storeRoot, visibleStore_congr fu.store fu.root fu.storeRoot]
+    exact h.nprop n k
+  · intro e k; unfold Engine.edgeProp
+    rw [fs.runs, fu.runs, visibleStore_congr fs.store fs.root fs.storeRoot, visibleStore_congr fu.store fu.root fu.storeRoot]
+    exact h.eprop e k
 
 /-! ### staging a transaction on the two engines -/
 
@@ -124,7 +137,7 @@ theorem gocl_frame (s : Engine) (l : Nat) :
     RFrame s (s.getOrCreateLabel l).1 ∧ (s.getOrCreateLabel l).1.idmap = s.idmap ∧
     (s.getOrCreateLabel l).1.vecs = s.vecs := by
   unfold Engine.getOrCreateLabel
-  split <;> exact ⟨⟨rfl, rfl, rfl, rfl⟩, rfl, rfl⟩
+  split <;> exact ⟨⟨rfl, rfl, rfl, rfl, rfl⟩, rfl, rfl⟩
 
 theorem gocl_cor (s u : Engine) (l : Nat) (h : s.interner = u.interner) :
     (s.getOrCreateLabel l).1.interner = (u.getOrCreateLabel l).1.interner ∧
@@ -241,7 +254,7 @@ theorem stepTx_cor (c : Cfg) (st su : Engine × Txn) (op : TxOp)
       exact ⟨RFrame.refl _, RFrame.refl _, hi, hm, hv,
         ⟨ht.created, ht.addL, ht.delL, ht.mt, by simp [ht.vecs]⟩⟩
     | false =>
-      exact ⟨⟨rfl, rfl, rfl, rfl⟩, ⟨rfl, rfl, rfl, rfl⟩, hi, hm, by simp [hv], ht⟩
+      exact ⟨⟨rfl, rfl, rfl, rfl, rfl⟩, ⟨rfl, rfl, rfl, rfl, rfl⟩, hi, hm, by simp [hv], ht⟩
 
 theorem fold_cor (c : Cfg) (ops : List TxOp) : ∀ (st su : Engine × Txn),
     st.1.interner = su.1.interner → IdEq st.1.idmap su.1.idmap → st.1.vecs = su.1.vecs → TCor st.2 su.2 →
@@ -294,7 +307,7 @@ theorem commit_eqv (c : Cfg) {s u : Engine} {t t' : Txn} (hE : Eqv c s u) (hT : 
   cases err0 with
   | some e =>
     rw [commit_err_eq c s t m e hp, commit_err_eq c u t' m' e hq]
-    exact hE.congr ⟨rfl, rfl, rfl, rfl⟩ ⟨rfl, rfl, rfl, rfl⟩ a1' hE.interner hE.vecs
+    exact hE.congr ⟨rfl, rfl, rfl, rfl, rfl⟩ ⟨rfl, rfl, rfl, rfl, rfl⟩ a1' hE.interner hE.vecs
   | none =>
     rw [commit_ok_eq c s t m hp] at hclear ⊢
     rw [commit_ok_eq c u t' m' hq]
@@ -304,7 +317,7 @@ theorem commit_eqv (c : Cfg) {s u : Engine} {t t' : Txn} (hE : Eqv c s u) (hT : 
       rw [hT.vecs, hE.vecs]
     by_cases he : (t.mt.freeze t.txid).isEmpty = true
     · have he' : (t'.mt.freeze t'.txid).isEmpty = true := by rw [← hT.mt, ← e0]; exact he
-      exact hE.congr ⟨by simp [committed, he], rfl, rfl, rfl⟩ ⟨by simp [committed, he'], rfl, rfl, rfl⟩
+      exact hE.congr ⟨by simp [committed, he], rfl, rfl, rfl, rfl⟩ ⟨by simp [committed, he'], rfl, rfl, rfl, rfl⟩
         a1' hE.interner hvec
     · have he' : ¬ (t'.mt.freeze t'.txid).isEmpty = true := by rw [← hT.mt, ← e0]; exact he
       have hr : (committed c s t m).runs = t.mt.freeze t.txid :: s.runs := by simp [committed, he]
@@ -323,9 +336,9 @@ theorem commit_eqv (c : Cfg) {s u : Engine} {t t' : Txn} (hE : Eqv c s u) (hT : 
         rw [incoming_cons c s _ _ hr rfl, incoming_cons c u _ _ hr' rfl, e3]
         exact (hE.inc n rel).pushIn _ n rel
       · intro n k
-        rw [nodeProp_cons s _ _ hr rfl rfl (Or.inr hN), nodeProp_cons u _ _ hr' rfl rfl (Or.inl hu), e4, hE.nprop]
+        rw [nodeProp_cons s _ _ hr rfl rfl rfl (Or.inr hN), nodeProp_cons u _ _ hr' rfl rfl rfl (Or.inl hu), e4, hE.nprop]
       · intro e k
-        rw [edgeProp_cons s _ _ hr rfl rfl (Or.inr hEd), edgeProp_cons u _ _ hr' rfl rfl (Or.inl hu), e5, hE.eprop]
+        rw [edgeProp_cons s _ _ hr rfl rfl rfl (Or.inr hEd), edgeProp_cons u _ _ hr' rfl rfl rfl (Or.inl hu), e5, hE.eprop]
 
 theorem commit_root (c : Cfg) (s : Engine) (t : Txn) : (s.commit c t).1.propsRoot = s.propsRoot := by
   unfold Engine.commit
@@ -337,8 +350,8 @@ theorem tx_eqv (c : Cfg) {s u : Engine} (hE : Eqv c s u) (hu : u.propsRoot = 0) 
     Eqv c (runTx c s ops b) (runTx c u ops b) ∧ (runTx c u ops b).propsRoot = 0 := by
   obtain ⟨f1, f2, hi, hm, hv, ht⟩ := fold_cor c ops s.beginWrite u.beginWrite hE.interner hE.idmap hE.vecs
     ⟨rfl, rfl, rfl, rfl, rfl⟩
-  have fs : RFrame s (ops.foldl (stepTx c) s.beginWrite).1 := RFrame.trans (b := s.beginWrite.1) ⟨rfl, rfl, rfl, rfl⟩ f1
-  have fu : RFrame u (ops.foldl (stepTx c) u.beginWrite).1 := RFrame.trans (b := u.beginWrite.1) ⟨rfl, rfl, rfl, rfl⟩ f2
+  have fs : RFrame s (ops.foldl (stepTx c) s.beginWrite).1 := RFrame.trans (b := s.beginWrite.1) ⟨rfl, rfl, rfl, rfl, rfl⟩ f1
+  have fu : RFrame u (ops.foldl (stepTx c) u.beginWrite).1 := RFrame.trans (b := u.beginWrite.1) ⟨rfl, rfl, rfl, rfl, rfl⟩ f2
   have hE1 := hE.congr fs fu hm hi hv
   have hu1 : (ops.foldl (stepTx c) u.beginWrite).1.propsRoot = 0 := by rw [fu.root]; exact hu
   unfold runTx at hclear ⊢
@@ -348,11 +361,30 @@ theorem tx_eqv (c : Cfg) {s u : Engine} (hE : Eqv c s u) (hu : u.propsRoot = 0) 
     simp only [if_true] at hclear ⊢
     exact ⟨commit_eqv c hE1 ht hu1 hclear, by rw [commit_root]; exact hu1⟩
 
+/-- a transaction touches neither the property tree nor the root the engine keeps -/
+theorem runTx_rootOK (c : Cfg) {s : Engine} (h : RootOK s) (ops : List TxOp) (b : Bool) : RootOK (runTx c s ops b) := by
+  obtain ⟨f1, _, _, _, _, _⟩ := fold_cor c ops s.beginWrite s.beginWrite rfl (IdEq.refl _) rfl ⟨rfl, rfl, rfl, rfl, rfl⟩
+  have fs : RFrame s (ops.foldl (stepTx c) s.beginWrite).1 := RFrame.trans (b := s.beginWrite.1) ⟨rfl, rfl, rfl, rfl, rfl⟩ f1
+  have key : ∀ x : Engine, x.store = s.store → x.propsRoot = s.propsRoot → x.storeRoot = s.storeRoot → RootOK x := by
+    intro x h1 h2 h3
+    exact ⟨by rw [h2, h3]; exact h.eq, fun h0 => by rw [h1]; exact h.empty (by rw [← h2]; exact h0)⟩
+  unfold runTx
+  cases b with
+  | false => exact key _ fs.store fs.root fs.storeRoot
+  | true =>
+    simp only [if_true]
+    have hc : ∀ (x : Engine) (t : Txn), (x.commit c t).1.store = x.store ∧ (x.commit c t).1.propsRoot = x.propsRoot ∧
+        (x.commit c t).1.storeRoot = x.storeRoot := by
+      intro x t; unfold Engine.commit; split <;> exact ⟨rfl, rfl, rfl⟩
+    obtain ⟨c1, c2, c3⟩ := hc (ops.foldl (stepTx c) s.beginWrite).1 (ops.foldl (stepTx c) s.beginWrite).2
+    exact key _ (c1.trans fs.store) (c2.trans fs.root) (c3.trans fs.storeRoot)
+
 /-! ### compaction on one of them -/
 
-theorem compact_eqv (c : Cfg) (hg : c.csrGuard = true) (hown : c.compactOwnLast = true) {s u : Engine}
-    (hE : Eqv c s u) (hs : compactSafe c s = true) : Eqv c (s.compact c) u := by
-  obtain ⟨hnt, hnd, hed, hroot, hclear⟩ := compactSafe_unpack c s hs
+theorem compact_eqv (c : Cfg) (hg : c.csrGuard = true) (hown : c.compactOwnLast = true)
+    (hflag : c.rootAfterInserts = true) {s u : Engine}
+    (hE : Eqv c s u) (hroot : RootOK s) (hs : compactSafe c s = true) : Eqv c (s.compact c) u := by
+  obtain ⟨hnt, hnd, hed, hclear⟩ := compactSafe_unpack c s hs
   have hid : (s.compact c).idmap = s.idmap ∧ (s.compact c).interner = s.interner ∧ (s.compact c).vecs = s.vecs := by
     unfold Engine.compact; split <;> exact ⟨rfl, rfl, rfl⟩
   refine ⟨(IdEq.of_eq hid.1).trans hE.idmap, hid.2.1.trans hE.interner, hid.2.2.trans hE.vecs, ?_, ?_, ?_, ?_, ?_⟩
@@ -365,8 +397,8 @@ theorem compact_eqv (c : Cfg) (hg : c.csrGuard = true) (hown : c.compactOwnLast 
     | false => rw [(compact_fields c s he).1]; rfl
   · intro n rel; exact (compact_neighbors_E c s hnt hown (segsClear_out hclear) n rel).trans (hE.out n rel)
   · intro n rel; exact (compact_incoming_E c s hnt hown hg (segsClear_in hclear) n rel).trans (hE.inc n rel)
-  · intro n k; rw [compact_nodeProp c s hnd hroot]; exact hE.nprop n k
-  · intro e k; rw [compact_edgeProp c s hed hroot]; exact hE.eprop e k
+  · intro n k; rw [compact_nodeProp c hflag s hnd hroot]; exact hE.nprop n k
+  · intro e k; rw [compact_edgeProp c hflag s hed hroot]; exact hE.eprop e k
 
 /-! ### histories -/
 
@@ -385,27 +417,29 @@ def notCompact : Op → Bool
 /-- the history with every compaction taken out -/
 def dropCompactions (h : List Op) : List Op := h.filter notCompact
 
-theorem hist_eqv (c : Cfg) (hg : c.csrGuard = true) (hown : c.compactOwnLast = true) :
-    ∀ (h : List Op) (s u : Engine), Eqv c s u → u.propsRoot = 0 →
+theorem hist_eqv (c : Cfg) (hg : c.csrGuard = true) (hown : c.compactOwnLast = true)
+    (hflag : c.rootAfterInserts = true) :
+    ∀ (h : List Op) (s u : Engine), Eqv c s u → RootOK s → u.propsRoot = 0 →
     compactHistSafe c s h = true →
-    ∃ s' u', h.foldlM (runOp c) s = .ok s' ∧ (dropCompactions h).foldlM (runOp c) u = .ok u' ∧ Eqv c s' u' := by
+    ∃ s' u', h.foldlM (runOp c) s = .ok s' ∧ (dropCompactions h).foldlM (runOp c) u = .ok u' ∧ Eqv c s' u' ∧
+      RootOK s' := by
   intro h
   induction h with
-  | nil => intro s u hE _ _; exact ⟨s, u, rfl, rfl, hE⟩
+  | nil => intro s u hE hR _ _; exact ⟨s, u, rfl, rfl, hE, hR⟩
   | cons op h ih =>
-    intro s u hE hu hs
+    intro s u hE hR hu hs
     cases op with
     | tx ops b =>
       simp only [compactHistSafe, Bool.and_eq_true] at hs
       obtain ⟨hE', hu'⟩ := tx_eqv c hE hu ops b hs.1
-      obtain ⟨s', u', h1, h2, h3⟩ := ih _ _ hE' hu' hs.2
+      obtain ⟨s', u', h1, h2, h3⟩ := ih _ _ hE' (runTx_rootOK c hR ops b) hu' hs.2
       refine ⟨s', u', ?_, ?_, h3⟩
       · rw [List.foldlM_cons]; exact h1
       · show ((Op.tx ops b :: h).filter notCompact).foldlM (runOp c) u = _
         rw [List.filter_cons_of_pos (by rfl), List.foldlM_cons]; exact h2
     | compact =>
       simp only [compactHistSafe, Bool.and_eq_true] at hs
-      obtain ⟨s', u', h1, h2, h3⟩ := ih _ _ (compact_eqv c hg hown hE hs.1) hu hs.2
+      obtain ⟨s', u', h1, h2, h3⟩ := ih _ _ (compact_eqv c hg hown hflag hE hR hs.1) (hR.compact c hflag) hu hs.2
       refine ⟨s', u', ?_, ?_, h3⟩
       · rw [List.foldlM_cons]; exact h1
       · show ((Op.compact :: h).filter notCompact).foldlM (runOp c) u = _
